@@ -33,7 +33,7 @@ for pid,(txt,tech) in sorted(PROPS.items()):
 na = [{"property_id": "C%02d" % i, "reason": "check not built yet in this session (claimed once its model, theorems and correspondence domain land)"} for i in range(1,18) if "C%02d" % i not in PROPS]
 m = {"version": 1,
      "setup_cmd": "cd /verif/lean && lake build Gmars gmars-driver " + " ".join("Gmars.Props.%s" % p for p in sorted(PROPS)),
-     "hooks": {"guard": "verif", "enable": "go build -tags verif (harness module with replace github.com/bobertlo/gmars => /repo)", "baseline_off_cmd": "cd /repo && GOFLAGS=-mod=mod GOPROXY=off GOSUMDB=off GOTOOLCHAIN=local go test -vet=off -count=1 .", "source_commits": [], "add_only": True},
+     "hooks": {"guard": "verif", "enable": "go build -tags verif (harness module with replace github.com/bobertlo/gmars => /repo)", "baseline_off_cmd": "cd /repo && GOFLAGS=-mod=mod GOPROXY=off GOSUMDB=off GOTOOLCHAIN=local go test -vet=off -count=1 .", "source_commits": ["b4d7ed12e51853657c79624ffc61432e379418dd"], "add_only": True},
      "engines": [{"name": "lean-model-correspondence", "path": "/verif/lean + /verif/harness + /verif/check", "serves_properties": sorted(PROPS), "kind_free_text": "Lean 4 model/spec/theorems; Go harness drives the real code; compiled Lean driver decides tie and property"}],
      "checks": checks, "not_applicable": na,
      "notes": "See DESIGN.md. KNOWN_FINDINGS.txt lists fixed defects (fix: commits in /repo) and recorded findings."}
